@@ -126,7 +126,7 @@ def run_kani_units(mods, repo_root, tier, work, verbose=False):
             cmd.append(a)
     for m, h in harnesses:
         cmd += ["--harness", h["name"]]
-    timeout = 3000 if tier == "thorough" else 1500
+    timeout = int(os.environ.get("VERIF_KANI_TIMEOUT", "7200" if tier == "thorough" else "2400"))
     def limit():
         import resource
         gb = int(os.environ.get("VERIF_KANI_MEM_GB", "10"))
